@@ -259,6 +259,17 @@ PLANS = {
         level_note='Trusted: Lean kernel; tools/translate.py (table extraction); the committed specification table `registered` and the committed http-types constant list.',
         design_ref='DESIGN.md §6 C19',
     ),
+    'C20': dict(
+        module='RucteProps.C20',
+        theorems=[],
+        runs=[dict(suite='sass', features=['sass'], n=dict(quick=150, thorough=3000), projection='identity', tags=['C20'])],
+        correspondence='what static_name("f") evaluates to inside add_sass_file (recovered from the published name of the compiled CSS) or the build error, vs Ructe.staticName on get_names() before the call',
+        rule='sets of 1..6 previously added files from 30 names (dashes, dots, underscores, leading digits, spaces, every punctuation byte rsass accepts in a string, non-ASCII letters), added through add_file and add_file_data; one scss per reference; references to every member, to non-members and to a name never used; non-trivial = distinct queried names',
+        assumptions=['rsass calls the builtin with the literal argument and fails the build on CallError (opaque)', 'the compiled CSS of `a{b:static_name("f")}` is `a{b:"<url>"}` (optionally behind a BOM / @charset)'],
+        level_text='Theorems static_name_total (lookup and insertion mangle alike: every added file is found) and static_name_never_wrong (a hit has the identifier of the query) over the model; tie + oracle through add_sass_file with the real rsass.',
+        level_note='Trusted: Lean kernel; hand-written model; rsass is opaque. Known finding: a non-member whose identifier equals a member\'s resolves to that member.',
+        design_ref='DESIGN.md §6 C20',
+    ),
 }
 
 
@@ -674,7 +685,12 @@ def execute(prop, plan, ctx):
     disagreements, oracle, samples = [], [], []
     cov = dict(evaluations=0, distinct_nontrivial=0, distribution={})
     for k, r in enumerate(plan['runs']):
-        res = ctx['run_suite'](ctx['binary'], ctx['driver'], r, ctx['tier'], ctx['seed'], f"{ctx['work']}/run{k}")
+        binary = ctx['binary']
+        if r.get('features'):
+            binary, err = ctx['build_harness'](r['features'])
+            if binary is None:
+                return dict(error='harness build with features ' + ','.join(r['features']) + ' failed: ' + err[-1500:])
+        res = ctx['run_suite'](binary, ctx['driver'], r, ctx['tier'], ctx['seed'], f"{ctx['work']}/run{k}")
         if 'error' in res:
             return dict(error=res['error'])
         d = compare(res, r.get('projection', 'identity'))
@@ -709,7 +725,12 @@ def search(prop, plan, ctx, disagreements, pr):
             r2 = dict(r)
             n = r['n'][ctx['tier']] if isinstance(r['n'], dict) else r['n']
             r2['n'] = n * 3
-            res = ctx['run_suite'](ctx['binary'], ctx['driver'], r2, ctx['tier'], ctx['seed'] * 1000 + extra_seed,
+            binary = ctx['binary']
+            if r.get('features'):
+                binary, err = ctx['build_harness'](r['features'])
+                if binary is None:
+                    continue
+            res = ctx['run_suite'](binary, ctx['driver'], r2, ctx['tier'], ctx['seed'] * 1000 + extra_seed,
                                    f"{ctx['work']}/search{k}")
             if 'error' in res:
                 continue
